@@ -97,6 +97,9 @@ pub struct Query {
     /// run the builder once before the observed call (same builder value used twice):
     /// search_path / search_cycle twice; search_edges before search_nodes and vice versa
     pub repeat: bool,
+    /// builder chain order: false = options (target / transpose / min / max / pre / post) first and
+    /// the closure last; true = the closure first and the options after it
+    pub late: bool,
 }
 
 #[derive(Clone, Debug, PartialEq)]
@@ -382,6 +385,20 @@ macro_rules! run_entries {
     }};
 }
 
+/// target / transpose of a search builder (no-ops when the query does not ask for them)
+macro_rules! opts {
+    ($b:ident, $q:ident) => {
+        if let Some(ref t) = $q.target { $b = $b.target(t); }
+        if $q.transpose { $b = $b.transpose(); }
+    };
+}
+
+macro_rules! opts_u {
+    ($b:ident, $q:ident) => {
+        if let Some(ref t) = $q.target { $b = $b.target(t); }
+    };
+}
+
 macro_rules! with_method {
     ($b:expr, $q:ident, $cb:ident, |$bb:ident| $body:expr) => {{
         match $q.meth {
@@ -558,28 +575,27 @@ macro_rules! directed_flavour {
                     match q.kind {
                         Kind::Bfs => {
                             let mut b = root.bfs();
-                            if let Some(ref t) = q.target { b = b.target(t); }
-                            if q.transpose { b = b.transpose(); }
-                            with_method!(b, q, cb, |bb| run_entries!(bb, q))
+                            if !q.late { opts!(b, q); }
+                            with_method!(b, q, cb, |bb| { if q.late { opts!(bb, q); } run_entries!(bb, q) })
                         }
                         Kind::Dfs => {
                             let mut b = root.dfs();
-                            if let Some(ref t) = q.target { b = b.target(t); }
-                            if q.transpose { b = b.transpose(); }
-                            with_method!(b, q, cb, |bb| run_entries!(bb, q))
+                            if !q.late { opts!(b, q); }
+                            with_method!(b, q, cb, |bb| { if q.late { opts!(bb, q); } run_entries!(bb, q) })
                         }
                         Kind::PfsMin | Kind::PfsMax => {
                             let mut b = root.pfs();
-                            b = if q.kind == Kind::PfsMin { b.min() } else { b.max() };
-                            if let Some(ref t) = q.target { b = b.target(t); }
-                            if q.transpose { b = b.transpose(); }
-                            with_method!(b, q, cb, |bb| run_entries!(bb, q))
+                            if !q.late { b = if q.kind == Kind::PfsMin { b.min() } else { b.max() }; opts!(b, q); }
+                            with_method!(b, q, cb, |bb| {
+                                if q.late { bb = if q.kind == Kind::PfsMin { bb.min() } else { bb.max() }; opts!(bb, q); }
+                                run_entries!(bb, q)
+                            })
                         }
                         Kind::Pre | Kind::Post => {
                             if q.target.is_some() { return Err("orderings take no target".into()); }
                             let mut b = if q.kind == Kind::Pre { root.preorder() } else { root.postorder() };
-                            if q.transpose { b = b.transpose(); }
-                            with_method!(b, q, cb, |bb| match q.entry {
+                            if q.transpose && !q.late { b = b.transpose(); }
+                            with_method!(b, q, cb, |bb| { if q.transpose && q.late { bb = bb.transpose(); } match q.entry {
                                 Entry::SearchNodes => {
                                     if q.repeat { let _ = bb.search_edges(); }
                                     let ns = bb.search_nodes();
@@ -593,7 +609,7 @@ macro_rules! directed_flavour {
                                     Ok((SRes::Edges(es.iter().map(|e| (*e.0.key(), *e.1.key(), e.2)).collect()), hs))
                                 }
                                 _ => Err(format!("entry {:?} not available on orderings", q.entry)),
-                            })
+                            }})
                         }
                     }
                 }
@@ -716,24 +732,27 @@ macro_rules! undirected_flavour {
                     match q.kind {
                         Kind::Bfs => {
                             let mut b = root.bfs();
-                            if let Some(ref t) = q.target { b = b.target(t); }
-                            with_method!(b, q, cb, |bb| run_entries!(bb, q))
+                            if !q.late { opts_u!(b, q); }
+                            with_method!(b, q, cb, |bb| { if q.late { opts_u!(bb, q); } run_entries!(bb, q) })
                         }
                         Kind::Dfs => {
                             let mut b = root.dfs();
-                            if let Some(ref t) = q.target { b = b.target(t); }
-                            with_method!(b, q, cb, |bb| run_entries!(bb, q))
+                            if !q.late { opts_u!(b, q); }
+                            with_method!(b, q, cb, |bb| { if q.late { opts_u!(bb, q); } run_entries!(bb, q) })
                         }
                         Kind::PfsMin | Kind::PfsMax => {
                             let mut b = root.pfs();
-                            b = if q.kind == Kind::PfsMin { b.min() } else { b.max() };
-                            if let Some(ref t) = q.target { b = b.target(t); }
-                            with_method!(b, q, cb, |bb| run_entries!(bb, q))
+                            if !q.late { b = if q.kind == Kind::PfsMin { b.min() } else { b.max() }; opts_u!(b, q); }
+                            with_method!(b, q, cb, |bb| {
+                                if q.late { bb = if q.kind == Kind::PfsMin { bb.min() } else { bb.max() }; opts_u!(bb, q); }
+                                run_entries!(bb, q)
+                            })
                         }
                         Kind::Pre | Kind::Post => {
                             if q.target.is_some() { return Err("orderings take no target".into()); }
-                            let b = if q.kind == Kind::Pre { root.order().pre() } else { root.order().post() };
-                            with_method!(b, q, cb, |bb| match q.entry {
+                            let mut b = root.order();
+                            if !q.late { b = if q.kind == Kind::Pre { b.pre() } else { b.post() }; }
+                            with_method!(b, q, cb, |bb| { if q.late { bb = if q.kind == Kind::Pre { bb.pre() } else { bb.post() }; } match q.entry {
                                 Entry::SearchNodes => {
                                     if q.repeat { let _ = bb.search_edges(); }
                                     let ns = bb.search_nodes();
@@ -747,7 +766,7 @@ macro_rules! undirected_flavour {
                                     Ok((SRes::Edges(es.iter().map(|e| (*e.0.key(), *e.1.key(), e.2)).collect()), hs))
                                 }
                                 _ => Err(format!("entry {:?} not available on orderings", q.entry)),
-                            })
+                            }})
                         }
                     }
                 }
